@@ -46,6 +46,7 @@ def _worker(args):
         r.label = '%s#%d' % (modname, idx)
         r.error = ('crash', '%s: %s\n%s' % (type(e).__name__, e, traceback.format_exc(limit=8)))
         r.obligations, r.paths, r.wall, r.info, r.reached, r.notes, r.outcomes, r.inlined = [], 0, 0.0, {}, [], [], {}, {}
+        r.pruned = False
         r.file = r.qualname = r.variant = None
         return r
 
@@ -220,6 +221,9 @@ def main(argv=None):
                     json.dump(rec, f, indent=1, default=str)
             if hit is not None:
                 known_hits.append((hit, o, rr))
+            elif getattr(r, 'pruned', False) and not (rr and rr.get('reproduced')):
+                # a pruned exploration only counts when its counterexample replays on the real code
+                errors.append((r.label, ('out-of-subset', 'refutation on a pruned exploration did not replay: %s' % o.name)))
             else:
                 violations.append((o, rp, rr))
 
